@@ -1170,6 +1170,57 @@ def replay_transports(chk, n, loopback: bool):
             lb.close()
 
 
+COVERAGE_STABILITY_DOCS = [
+    {"openapi": "3.0.2", "info": {"title": "t", "version": "1"}, "paths": {"/u/{id}/{n}": {"get": {"parameters": [
+        {"name": "id", "in": "path", "required": True, "schema": {"type": "string", "enum": ["a b", "c%d"]}},
+        {"name": "n", "in": "path", "required": True, "style": "label", "schema": {"type": "integer", "minimum": 5}},
+        {"name": "q", "in": "query", "schema": {"type": "integer", "minimum": 1, "maximum": 3}},
+        {"name": "t", "in": "query", "style": "pipeDelimited", "explode": False,
+         "schema": {"type": "array", "items": {"type": "integer"}, "minItems": 2, "maxItems": 2}},
+        {"name": "X-H", "in": "header", "schema": {"type": "integer", "minimum": 7}}],
+        "responses": {"200": {"description": "ok"}}}}}},
+    {"openapi": "3.0.2", "info": {"title": "t", "version": "1"}, "paths": {"/m/{p}": {"post": {"parameters": [
+        {"name": "p", "in": "path", "required": True, "style": "matrix", "schema": {"type": "string", "enum": ["x y"]}},
+        {"name": "c", "in": "cookie", "schema": {"type": "boolean"}}],
+        "requestBody": {"content": {"application/json": {"schema": {"type": "object", "properties": {
+            "k": {"type": "integer", "minimum": 0, "maximum": 2}}, "required": ["k"]}}}},
+        "responses": {"200": {"description": "ok"}}}}}},
+]
+
+
+def coverage_stability(chk):
+    """The parts of a coverage-phase case that the case does not vary are the template's generated values: they must be
+    the same on every case of the operation (they are serialized anew for each case, never cumulatively)."""
+    import schemathesis
+    from schemathesis.generation import GenerationMode
+    from schemathesis.generation.hypothesis.builder import _iter_coverage_cases
+    for raw in COVERAGE_STABILITY_DOCS:
+        schema = schemathesis.openapi.from_dict(raw)
+        for result in schema.get_all_operations():
+            op = result.ok()
+            cases = list(_iter_coverage_cases(op, [GenerationMode.POSITIVE, GenerationMode.NEGATIVE], None))
+            base = cases[0]
+            for i, c in enumerate(cases):
+                data = c.meta.phase.data
+                varied = (getattr(data, "parameter_location", None), getattr(data, "parameter", None))
+                for cont, loc in (("path_parameters", "path"), ("query", "query"), ("headers", "header"), ("cookies", "cookie")):
+                    b, v = getattr(base, cont) or {}, getattr(c, cont) or {}
+                    for name, bv in dict(b).items():
+                        if (loc, name) == varied or name not in v:
+                            continue
+                        chk.case("coverage:unvaried-parts-stable", key=[op.label, i, cont, name], nontrivial=i > 0)
+                        if v[name] != bv and data.description.startswith(("Unspecified HTTP method", "Default", "Near", "Maximum",
+                                                                           "Minimum", "Value", "Enum", "Incorrect", "Invalid")):
+                            if data.parameter == name and getattr(data, "parameter_location", None) == loc:
+                                continue
+                            chk.violation("C06:Template._serialize:unvaried-parameter-changes-between-coverage-cases",
+                                          f"{op.label}: {cont}[{name}] is {bv!r} in the first coverage case and {v[name]!r} in case "
+                                          f"#{i} ({data.description!r}, which varies {varied}) — the template value was serialized again",
+                                          {"doc": raw, "case_index": i, "description": data.description,
+                                           "first": {cont: dict(b)}, "this": {cont: dict(v)}})
+                            break
+
+
 def run(chk):
     import time
 
@@ -1203,6 +1254,7 @@ def run(chk):
     replay_bodies(chk, chk.budget(300, 3000))
     corr_template(chk, chk.budget(1500, 15000), variants)
     corr_empty_dicts(chk, chk.budget(200, 2000))
+    coverage_stability(chk)
     lap("headers+bodies+template")
     replay_transports(chk, chk.budget(150, 2000), loopback=chk.thorough)
     lap("transports")
